@@ -69,6 +69,14 @@ def make_array(desc):
     return _layout(make_array(d2), lay)
   k = desc["kind"]
   rs = np_stream(desc.get("seed", 0), "arr", k)
+  if k == "spd" and desc.get("cond"):
+    # SPD with a prescribed (possibly very wide) spectrum: 1 .. cond
+    d = desc["d"]
+    Q, _ = np.linalg.qr(rs.randn(d, d))
+    w = 10.0 ** rs.uniform(0.0, np.log10(float(desc["cond"])), size=d)
+    w[0], w[-1] = 1.0, float(desc["cond"])
+    M = (Q * w).dot(Q.T)
+    return (M + M.T) / 2 * float(desc.get("scale", 1.0))
   if k == "spd":
     d = desc["d"]
     A = rs.randn(d, d)
